@@ -588,9 +588,10 @@ func (ex *Exec) runPath(p pending, run func()) {
 	ex.fuel = ex.maxFuel
 	ex.depth = 0
 	end := ex.runGuarded(run)
-	if end.reason == "hang" {
-		// a blocked single goroutine (channel deadlock) is a candidate non-termination: record it as
-		// a witness (native replay under a watchdog decides)
+	if end.reason == "hang" || end.reason == "fuel" {
+		// a blocked single goroutine (channel deadlock) or an exhausted instruction budget is a
+		// candidate non-termination: record it as a witness (native replay under a watchdog decides;
+		// a budget that the native run does not confirm stays an inconclusive path end)
 		func() {
 			defer func() { recover() }()
 			ex.ensureModel()
